@@ -324,7 +324,12 @@ pub fn op_eval(
         mk(inputs.to_vec()),
         |ops: SF<Op>, args: ICS<u64>| {
             let labels = un(&ops.0);
+            // an interpreter may read its argument lists from the raw fields or through the
+            // library's owning iterator (the way the library's own examples do): both readings
+            // must give the same lists
+            let iterated: Vec<Vec<u64>> = args.clone().into_iter().map(|x| un(&x.0)).collect();
             let args = decode_ics(&args).unwrap_or_else(|e| panic!("{} eval passed a malformed segmented array of arguments to apply: {e}", crate::functor_model::CALLBACK_VIOLATION));
+            assert!(iterated == args, "library-violation:eval-arguments-iterate: iterating the argument lists eval passed to apply yields {:?} but their fields hold {:?}", iterated, args);
             assert!(labels.len() == args.len(), "{} eval passed {} operations but {} argument lists to apply", crate::functor_model::CALLBACK_VIOLATION, labels.len(), args.len());
             let mut outs: Vec<Vec<u64>> = vec![];
             for (l, a) in labels.iter().zip(args.iter()) {
